@@ -168,6 +168,12 @@ func (g *Gen) eval(e Expr, env *Env) Val {
 		}
 		return env.results[x.N]
 	case *EIdent:
+		if t, ok := g.cellGhosts[x.Name]; ok && env.symHeap == nil && env.heap != nil {
+			// a ghost bound by an expression (`ghost x after F#N = EXPR`, scalar): kept in the symbolic state, so its
+			// value follows the path - where F#N was not executed it is an unconstrained initial value
+			srt := g.scalarSort(t)
+			return sv(t, sel(g.envHeapGet(env, env.heap, "ghost:"+x.Name, "(Array Int "+srt+")"), "0"))
+		}
 		if v, ok := env.vars[x.Name]; ok {
 			return v
 		}
